@@ -78,14 +78,14 @@ def parse_report(out):
     if not m:
         raise ValueError("no report in coqc output: %r" % out[:400])
     t = " ".join(m.group(1).split())
-    m2 = re.fullmatch(r"\((\d+), (\[[^\]]*\]), (\[[^\]]*\]), (\[.*\])\)", t)
+    m2 = re.fullmatch(r"\(\s*(\d+),\s*(\[[^\]]*\]),\s*(\[[^\]]*\]),\s*(\[.*\])\s*\)", t)
     if not m2:
         raise ValueError("unparsable report: %r" % t[:400])
     n = int(m2.group(1))
     dis = _parse_nat_list(m2.group(2))
     vio = _parse_nat_list(m2.group(3))
     fnd = {}
-    for k, fs in re.findall(r"\((\d+), (\[[^\]]*\])\)", m2.group(4)):
+    for k, fs in re.findall(r"\(\s*(\d+),\s*(\[[^\]]*\])\s*\)", m2.group(4)):
         fnd[int(k)] = _parse_nat_list(fs)
     return n, dis, vio, fnd
 
